@@ -75,3 +75,21 @@ Theorem c04_single_thread_is_sequential_programs : forall e, src_env e -> e_cras
   run_vals 0 (N.to_nat (iv_total (cov e (c_trace (exec e (init progs) (repeat t0 k)))))).
 Proof. exact solo_sequential_progs. Qed.
 Print Assumptions c04_single_thread_is_sequential_programs.
+
+(** the history the cursor theorems speak about only grows: the events and labels recorded after the
+    schedule [a] are still there, unchanged and in place, after [a ++ b] (the lists grow at the head).  The
+    theorems above are stated for the trace at the end of an arbitrary schedule; with this they hold at
+    every intermediate point of every run, and nothing that was delivered is ever taken back or re-ordered
+    by a later step. *)
+From OCI.proofs Require Import Progress History.
+Theorem c04_history_is_append_only : forall e c a b,
+  exists evs ls,
+    c_trace (exec e c (a ++ b)) = evs ++ c_trace (exec e c a) /\
+    c_labels (exec e c (a ++ b)) = ls ++ c_labels (exec e c a).
+Proof. exact history_append_only. Qed.
+Print Assumptions c04_history_is_append_only.
+
+Theorem c04_answers_are_never_retracted : forall e c a b t,
+  (rets t (c_trace (exec e c a)) <= rets t (c_trace (exec e c (a ++ b))))%nat.
+Proof. exact answers_are_never_retracted. Qed.
+Print Assumptions c04_answers_are_never_retracted.
